@@ -117,7 +117,7 @@ func runMem(c Case, tr *Tracer) {
 	cm, sm := codec.NewCMPPCodec(), codec.NewSMPPCodec()
 	conn := &scriptedConn{fault: "eof"}
 	for s := 0; s < steps; s++ {
-		switch rr.Intn(11) {
+		switch rr.Intn(12) {
 		case 0, 1: // encode, then the caller scribbles over the returned bytes
 			tn := typeNames[rr.Intn(len(typeNames))]
 			a := defaultAssign(rr, tn, true)
@@ -184,6 +184,38 @@ func runMem(c Case, tr *Tracer) {
 				in[i] = 0xEE
 			}
 			emit(Ev{"ev": "Scribble", "i": iid}, "Scribble")
+		case 11: // keep-alive traffic: two frames of one header-only type, different sequence numbers, through the dispatcher
+			var small []string
+			for _, tn := range typeNames {
+				if len(layouts[tn].Fields) <= 3 && tn != "cmpp.SubPduDeliveryContent" {
+					small = append(small, tn)
+				}
+			}
+			tn := small[rr.Intn(len(small))]
+			for k := 0; k < 2; k++ {
+				a := defaultAssign(rr, tn, true)
+				setCmd(tn, a)
+				img, err := build(tn, a).IEncode()
+				if err != nil {
+					break
+				}
+				iid := nextIn
+				nextIn++
+				emit(Ev{"ev": "NewInput", "i": iid}, "NewInput")
+				dt, dp := dispatchName(tn[:6], append([]byte{}, img...))
+				cp, ok := dp.(codecPDU)
+				if dt != tn || !ok {
+					break
+				}
+				refp := ctors[tn]()
+				_ = refp.IDecode(append([]byte{}, img...))
+				id := nextID
+				nextID++
+				lr := &liveResult{id: id, kind: "decode", tn: tn, pdu: cp}
+				lr.read = func() string { return snapJSON(project(lr.tn, lr.pdu)) }
+				add(lr)
+				emit(Ev{"ev": "Decode", "r": id, "i": iid, "type": tn, "same": lr.snap == snapJSON(project(tn, refp))}, "Decode")
+			}
 		case 10: // the caller keeps the lists / byte fields of a decoded PDU and decodes the next frame into the same object
 			var decs []*liveResult
 			for _, lr := range live {
